@@ -15,7 +15,7 @@ import eqlmc  # noqa: F401
 from entity_query_language import MultipleSolutionFound, NoSolutionFound
 
 from .. import qast as Q
-from ..common import (X, Y, leaves_single, REPRESENTATIVE_8, XY_REP, grid_row, tiny_domains, root_kind, exc_obs,
+from ..common import (X, Y, A, L, leaves_single, REPRESENTATIVE_8, XY_REP, grid_row, tiny_domains, root_kind, exc_obs,
                       VARS3)
 from ..isolate import run_isolated
 from ..space import trees_by_depth
@@ -54,6 +54,17 @@ def cases(tier, inst):
             if Q.depth(t) == 1 and t[0] != "not":
                 yield ("entity", t, w)
         yield ("entity", None, w)
+    # objects with VALUE equality (dataclass eq): two distinct objects with equal fields are two solutions
+    vleaves = [("cmp", "eq", A(X, "p"), L(1)), ("cmp", "ge", A(X, "p"), A(X, "q")), ("cmp", "ne", A(X, "q"), L(2)),
+               ("or", ("cmp", "eq", A(X, "p"), L(2)), ("cmp", "eq", A(X, "q"), L(2))),
+               ("not", ("cmp", "eq", A(X, "p"), L(1)))]
+    for dom in tiny_domains(3):
+        for t in vleaves + [None]:
+            yield ("ventity", t, dom)
+    for da in tiny_domains(2):
+        for db in tiny_domains(2):
+            for t in (("cmp", "eq", A(X, "p"), A(Y, "p")), ("cmp", "le", A(X, "q"), A(Y, "p")), None):
+                yield ("vsetof", t, (da, db))
     doms = list(tiny_domains(2))
     for da, db in itertools.product(doms, doms):
         for t in trees_by_depth(XY_REP, 1):
@@ -65,6 +76,10 @@ def cases(tier, inst):
 
 def wspec_of(case):
     kind, t, w = case
+    if kind == "ventity":
+        return (("D", "VItem", w),)
+    if kind == "vsetof":
+        return (("DA", "VItem", w[0]), ("DB", "VItem", w[1]))
     if kind == "entity":
         kids = tuple((("p", GRID9[i][1]), ("q", GRID9[i][0]), ("flag", GRID9[i][0] > GRID9[i][1])) for i in w)
         rows = tuple(grid_row(GRID9[i][0], GRID9[i][1], "Dk", j) for j, i in enumerate(w))
@@ -77,6 +92,10 @@ def query_of(case, quant="the"):
     conds = (t,) if t else ()
     if kind == "entity":
         return ("Q", quant, "entity", X, conds, VX)
+    if kind == "ventity":
+        return ("Q", quant, "entity", X, conds, (("x", "let", "VItem", "D"),))
+    if kind == "vsetof":
+        return ("Q", quant, "setof", (X, Y), conds, (("x", "let", "VItem", "DA"), ("y", "let", "VItem", "DB")))
     sel = (X, Y) if kind == "setof_xy" else (Y, X)
     return ("Q", quant, "setof", sel, conds, VARS3[:2])
 
@@ -130,7 +149,7 @@ def run_case(case, inst):
         return obs, rows, an_rows, total
 
     obs, rows, an_rows, total = run_isolated(body)
-    n = len(set(rows))
+    n = len(set(rows))       # rows are tuples of identity labels: value-equal twins are different solutions
     exp = ("NoSolution",) if n == 0 else (("value", rows[0]) if n == 1 else ("Multiple",))
     klass = "0" if n == 0 else ("1" if n == 1 else ">=2")
     res = {"ok": True, "nontrivial": 0 < n < total, "transitions": 3,
